@@ -20,6 +20,7 @@ func checkC13(P *core.Program, R *core.Report) {
 		"Checkpoints: UpdateUserRewardPending dominates UpdateUserRewardDebt for the same (pool, denom, user) with the matching deposit flag; the amounts handed to AfterBond/AfterUnbond/AfterJoinPool/AfterExitPool are the committed/uncommitted/minted/burnt share amounts themselves and masterchef's hooks forward them unchanged; masterchef's AmmHooks and StableStakeHooks are registered; a pool-info record modified in ProcessExternalRewardsDistribution reaches SetPoolInfo before it is dropped. Σ pending ≤ balance as a number, Eden (virtual) rewards and dust accounting are not decided."
 	checkSameKeyDelete(P, R, "C13-same-record", func(k string) bool { return os.Getenv("ELYSLINT_SAMEKEY_ALL") != "" || strings.HasPrefix(k, "x/masterchef/") })
 	checkSplits(P, R)
+	checkRewardDenomsAppendOnly(P, R)
 	checkExternalIncentive(P, R)
 	checkClaimRewards(P, R)
 	checkCheckpoints(P, R)
@@ -540,5 +541,64 @@ func checkModifiedPersisted(P *core.Program, R *core.Report, rule, fnKey, load, 
 	}
 	if n == 0 {
 		R.Add(rule, fnKey, "modified record", P.Pos(fn.Pos()), false, "no modification found (anchor changed)")
+	}
+}
+
+// checkRewardDenomsAppendOnly (C13-denoms-append-only, who-may-write): the deposit / withdraw
+// hooks settle a user's reward debt for exactly the denoms listed in the pool's
+// ExternalRewardDenoms.  A denom that is taken off the list stops being settled while the
+// pool's accumulated-per-share figure for it stays; when an incentive in that denom runs again,
+// shares that joined in between have no debt for the old accumulation and are credited rewards
+// of blocks they were not in — more than was ever funded.  In consensus code the list only
+// grows: every store to the field writes a fresh empty list into a new record, or
+// append(<the same field>, …).
+func checkRewardDenomsAppendOnly(P *core.Program, R *core.Report) {
+	const rule = "C13-denoms-append-only"
+	subjects := P.Reach(P.FindRoots().Consensus())
+	n := 0
+	for _, fn := range P.Funcs {
+		if !subjects[fn] || core.IsGeneratedOrAux(P.File(fn.Pos())) || !strings.HasPrefix(P.Key(fn), "x/masterchef/") {
+			continue
+		}
+		ff := P.Facts(fn)
+		for _, b := range fn.Blocks {
+			for _, in := range b.Instrs {
+				st, ok := in.(*ssa.Store)
+				if !ok {
+					continue
+				}
+				fa, ok := st.Addr.(*ssa.FieldAddr)
+				if !ok || core.FieldName(fa.X.Type(), fa.Field) != "ExternalRewardDenoms" || core.NamedName(fa.X.Type()) != "PoolInfo" {
+					continue
+				}
+				n++
+				good := false
+				if _, fresh := fa.X.(*ssa.Alloc); fresh {
+					if els, isLit := core.SliceLiteral(ff.Fwd(st.Val)); isLit && len(els) == 0 {
+						good = true
+					}
+					if sl, ok := ff.Fwd(st.Val).(*ssa.Slice); ok {
+						if _, isArr := sl.X.(*ssa.Alloc); isArr {
+							good = true // a literal for a record created here
+						}
+					}
+				}
+				if c, ok := ff.Fwd(st.Val).(*ssa.Call); ok {
+					if bi, isB := c.Common().Value.(*ssa.Builtin); isB && bi.Name() == "append" && len(c.Common().Args) == 2 {
+						// append(old value of the same field, …)
+						for _, o := range ff.Origins(c.Common().Args[0]) {
+							if strings.HasSuffix(o.Path, ".ExternalRewardDenoms") {
+								good = true
+							}
+						}
+					}
+				}
+				R.Add(rule, P.Key(fn), "writes PoolInfo.ExternalRewardDenoms", P.Pos(P.InstrPos(in)), good,
+					"the list of external reward denoms a pool settles debts for only grows (a new record starts empty, later writes are append(old, …))")
+			}
+		}
+	}
+	if n == 0 {
+		R.Add(rule, "-", "writers of PoolInfo.ExternalRewardDenoms", "-", false, "none found (anchor changed)")
 	}
 }
